@@ -476,6 +476,17 @@ pub fn replay(v: &serde_json::Value) -> bool {
     let rep = Report::new(prop, "quick");
     match prop {
         "C13" => {
+            if let Some(args) = v["extra"]["cli_args"].as_array() {
+                let args: Vec<String> = args.iter().map(|x| x.as_str().unwrap().to_string()).collect();
+                let a: Vec<&str> = args.iter().map(|s| s.as_str()).collect();
+                let tn = !a.contains(&"-n");
+                let lib = b.run(&src, Mode::Build, true, tn);
+                b.reset(&src, None, None);
+                let (code, to) = run_cli(&b.base, &a, &[], 20.0);
+                let out = std::fs::read(b.base.join(OUT)).ok();
+                println!("replay: txtpp {:?} -> exit {code}, output {:?}; library with trailing_newline={tn}: {} {:?}", a, out.as_ref().map(|x| show(x)), lib.v.kind(), lib.out.as_ref().map(|x| show(x)));
+                return to || (code == 0) != (lib.v == V::Ok) || (code == 0 && out != lib.out);
+            }
             c13_pair(&rep, &b, &src);
         }
         "C12" => {
